@@ -58,10 +58,14 @@ def gen_run(rng, cfg):
     sloppy = rng.choice([0.0, 0.02, 0.1])
     actors = []
     shared_prog = None
+    fname_theme = rng.random() < 0.15
     kinds_w = [("parse", 5), ("roundtrip", 2), ("gen", 2), ("visit", 1.5), ("lex", 1), ("parse_file", 0.7), ("mixed", 2)]
     # swarm "theme": a third of the runs use one actor kind throughout (two
     # generators / two visitors / two lexers in flight at once)
     theme = _pick_weighted(rng, kinds_w) if rng.random() < 0.35 else None
+    deep = rng.random() < 0.04  # every actor gets a deeply nested input (recursion limits are process-global)
+    if deep:
+        theme, mode = "parse", "token"
     main_gen = (rng.random() < 0.4, rng.choice(["plain", "plain", "Upper", "UpperMore"]))
     if theme in ("gen", "visit") and rng.random() < 0.7:
         mode = "line"  # generator / visitor operations are atomic in token mode
@@ -69,11 +73,15 @@ def gen_run(rng, cfg):
         kind = theme or _pick_weighted(rng, kinds_w)
         nops = rng.choice([1, 1, 2, 2, 3, 4])
         pg = W.ProgGen(rng, actor=i, size=size, depth=depth, sloppy=sloppy, marks=True)
+        if fname_theme:
+            pg.name_pool_rate, pg.directive_rate = 0.9, 0.35
         ops = []
         for k in range(nops):
             opk = kind if kind != "mixed" else rng.choice(["parse", "roundtrip", "gen", "visit", "lex", "parse_file"])
             x = rng.random()
-            if long_inputs and opk in ("parse", "lex") and k == 0:
+            if deep and k == 0:
+                items = W.deep_program(rng)
+            elif long_inputs and opk in ("parse", "lex") and k == 0:
                 items = list(rng.choice(cfg["long_corpus"])[1])
             elif opk in ("gen", "visit") and x < 0.75:
                 # generator / visitor operations need an input that parses
@@ -121,6 +129,7 @@ def gen_run(rng, cfg):
             elif opk == "visit":
                 op["visitor"] = rng.choice(["Collect", "CollectMore", "Count", "CountMore"])
                 op["tag"] = "tag%d" % i
+                op["show"] = rng.random() < 0.4
             elif opk == "lex":
                 op["sim"] = True
                 op["errmode"] = rng.choice(["record", "record", "raise"])
@@ -191,6 +200,7 @@ def solo_spec(spec, i):
     a.pop("markers", None)
     return {
         "property": "C13",
+        "recursion_delta": spec.get("recursion_delta", 0),
         "mode": spec["mode"],
         "policy": {"kind": "rtc"},
         "actors": [a],
@@ -336,3 +346,17 @@ def sample_view(spec, result):
         "steps": result["steps"],
         "switches": result["switches"],
     }
+
+
+def rec_mismatches(spec, result, solos):
+    out = []
+    for i in range(len(spec["actors"])):
+        for k, (r, s) in enumerate(zip(result["actors"][i], solos[i]["actors"][0])):
+            if not r.get("out") or not s.get("out"):
+                continue
+            rk, sk = r["out"]["k"], s["out"]["k"]
+            if rk in ("abort", "hang") or sk in ("abort", "hang"):
+                continue
+            if (rk == "rec") != (sk == "rec"):
+                out.append((i, k, "under the schedule" if rk == "rec" else "alone"))
+    return out
